@@ -1,4 +1,6 @@
 #!/bin/sh
 # developer convenience: regenerate _CoqProject/Makefile and build the Coq development
+# (under the same lock as the checks' own build, so that it can run beside them)
+mkdir -p /verif/build
 cd /verif && /venv/bin/python -c "
-import sys; sys.path.insert(0,'harness'); import core; core.write_coqproject()" && cd coq && (coq_makefile -f _CoqProject -o Makefile >/dev/null) && timeout 3000 make -k -j16 2>&1 | grep -v "^COQC\|^COQDEP\|^make\|Closed under the global context" | head -${1:-40}
+import sys; sys.path.insert(0,'harness'); import core; core.write_coqproject()" && cd coq && (coq_makefile -f _CoqProject -o Makefile >/dev/null) && flock /verif/build/.build.lock timeout 3000 make -k -j16 2>&1 | grep -v "^COQC\|^COQDEP\|^make\|Closed under the global context" | head -${1:-40}
